@@ -23,6 +23,11 @@ type Switch struct {
 // deadlockPanic is thrown into a client that is blocked when every unfinished client is blocked.
 type deadlockPanic struct{ site uint32 }
 
+// budgetPanic is thrown into an operation that exceeds its step budget (bounded liveness: every
+// operation on these small tensors finishes within a few thousand statements; one that is still
+// running after millions is not going to).
+type budgetPanic struct{ site uint32 }
+
 type Sched struct {
 	active bool
 	replay bool
@@ -51,6 +56,11 @@ type Sched struct {
 	total        uint64
 	maxYields    uint64
 	overBudget   bool
+	countOnly    bool   // no scheduling, only the per-operation step budget (single-client runs)
+	opYields     uint64 // statements executed by the operation in flight (countOnly mode)
+	budgetSite   uint32
+	budgetClient int
+	opYc         [maxClients]uint64 // statements executed by each client's operation in flight
 	switches     uint64
 	switchesInOp uint64
 	blockedRun   int
@@ -84,7 +94,7 @@ func (s *Sched) Reset(nsites int) {
 	*s = Sched{}
 	s.cover = cov
 	s.coverCount = cc
-	s.maxYields = 4 << 20
+	s.maxYields = 64 << 20
 	s.sig = fnvOff
 	s.sigK = fnvOff
 	s.tape = tp[:0]
@@ -109,6 +119,9 @@ func (s *Sched) LoadTape(t []Switch) {
 
 const tapeCap = 1 << 17
 
+// opYieldBudget bounds one operation in single-client runs (the largest legitimate operation seen needs ~10^4).
+const opYieldBudget = 3 << 20
+
 // tapeAdd records a decision without append/copy: the runtime helpers behind those builtins carry
 // race-detector annotations of their own, and this code runs in client goroutines whose hand-off
 // must stay invisible to the detector.
@@ -122,6 +135,14 @@ func (s *Sched) tapeAdd(sw Switch) {
 	}
 	s.tape = s.tape[:n+1]
 	s.tape[n] = sw
+}
+
+//go:norace
+func (s *Sched) beginOp() {
+	s.opYields = 0
+	if s.active {
+		s.opYc[s.cur] = 0
+	}
 }
 
 //go:norace
@@ -288,6 +309,15 @@ func (s *Sched) handOff(c, next int) {
 //go:norace
 func (s *Sched) Yield(site uint32) {
 	if !s.active || s.quiet > 0 {
+		if s.countOnly && s.quiet == 0 {
+			// single-client runs (C19, solo oracles): no scheduling, but the step budget still holds
+			s.opYields++
+			if s.opYields > opYieldBudget {
+				s.budgetSite = site
+				s.opYields = 0
+				panic(budgetPanic{site})
+			}
+		}
 		return
 	}
 	c := s.cur
@@ -295,8 +325,16 @@ func (s *Sched) Yield(site uint32) {
 	s.total++
 	s.blockedRun = 0
 	s.markCover(site)
-	if s.total > s.maxYields {
+	s.opYc[c]++
+	if s.total > s.maxYields || s.opYc[c] > opYieldBudget {
 		s.overBudget = true
+		if s.budgetSite == 0 {
+			s.budgetSite = site
+			s.budgetClient = c
+		}
+		// abort the operation in flight; every later operation of every client aborts at its first
+		// statement, so the run drains quickly
+		panic(budgetPanic{site})
 	}
 	if s.overBudget {
 		return
